@@ -15,7 +15,7 @@ Operations (`impl_cds_op`):
                                        scan_chromosome_codon_locations(window), k = scan_chunk_relative_codon_locations,
                                        d = the deprecated scan_codon_locations()      -> ok <n> <location>*
     numcodons CDS                      num_codons                                     -> ok <n>
-    cdsseq CDS                         extract_sequence()  (fast path)                -> ok s:<letters>
+    cdsseq CDS                         extract_sequence()  (fast path)                -> ok s:<letters>  (s: = a Sequence)
     cdsseqc CDS                        extract_sequence() after the codon locations were listed (cached codon path)
     scancodons CDS <trunc 0|1>         [str(c) for c in scan_codons(trunc)]           -> ok <n> <codon>*
     translate CDS <trunc> <table 0|1|11> <strict>    translate(...)                   -> ok s:<protein>
@@ -94,7 +94,11 @@ def show_locs(locs):
 
 
 def show_str(s):
-    return "ok s:" + str(s)
+    """`ok s:<letters>` for a Sequence; any other type (e.g. the `str` of the former F-C10a) gets its own tag,
+    which neither the model (`s:`) nor the spec driver's parser accepts."""
+    if isinstance(s, Sequence):
+        return "ok s:" + str(s)
+    return f"ok {type(s).__name__}:{s}"
 
 
 def impl_cds_op(line):
@@ -123,7 +127,7 @@ def impl_cds_op(line):
         if op == "cdsseqc":
             c = parse_cds(tk)
             _ = c.chunk_relative_codon_locations
-            return show_str(c.extract_sequence())   # a `str` here on the pinned tree (F-C10a); content is compared
+            return show_str(c.extract_sequence())   # must be a Sequence (repaired F-C10a); a `str` is tagged as such
         if op == "scancodons":
             c = parse_cds(tk)
             cod = [str(x) for x in c.scan_codons(tk.bool())]
